@@ -3,6 +3,7 @@ mod c14;
 mod c16;
 mod c01;
 mod c03;
+mod c06;
 mod c09;
 mod c10;
 mod c17;
@@ -31,6 +32,7 @@ fn main() {
         "version" => println!("{}", pgp::VERSION),
         "c14" => c14::run(&cases, &out, &tier, seed),
         "c10" => c10::run(&cases, &out, &tier, seed),
+        "c06" => c06::run(&cases, &out, &tier, seed),
         "c16" => c16::run(&cases, &out, &tier, seed),
         "c01" => c01::run(&cases, &out, &tier, seed),
         "c09" => c09::run(&cases, &out, &tier, seed),
